@@ -191,3 +191,9 @@ Definition check_hist2
   let '(tu, td, f0, evs) := x in
   let tu' := sTU tu in let td' := map XB td in
   check_events2 tu' td' (option_map (file_of tu' td') f0) evs.
+
+(* ---- 5. repr() of str, byte for byte (round 12): (UTF-8 of the string, UTF-8 of Python's repr of it) ------------ *)
+Definition check_repr (x : string * string) : bool := beqb (srepr (B (fst x))) (B (snd x)).
+
+(* the real cache key: configuration and the hex digest found at the start of the header the implementation wrote *)
+Definition check_keyd (x : ccfg * string) : bool := String.eqb (key_digest (fst x)) (snd x).
